@@ -397,10 +397,8 @@ fn refusal(r: &Report) {
                 match guard(|| m.merge(b.clone())) {
                     Err(p) => r.violation("refusal/panic", json!({"base": name, "change": what}), p),
                     Ok(Ok(())) => r.violation(format!("refusal/merged-different-transactions/{}", what), json!({"base": name, "change": what}), "PSETs with different unique ids were merged"),
-                    Ok(Err(e)) => {
-                        if !format!("{:?}", e).contains("UniqueIdMismatch") {
-                            r.violation(format!("refusal/wrong-error/{}", what), json!({"base": name, "change": what}), format!("{:?}", e));
-                        }
+                    // "refused" = any error (the property does not name the variant) that leaves the receiver as it was
+                    Ok(Err(_e)) => {
                         if serialize(&m) != before {
                             r.violation("refusal/modified-on-refusal", json!({"base": name, "change": what}), "self was modified although the merge was refused");
                         }
